@@ -82,6 +82,7 @@ type WorkerStats struct {
 	Violations []FoundViolation  `json:"violations"`
 	Harness    []string          `json:"harness"`
 	Samples    []json.RawMessage `json:"samples"`
+	Fallback   json.RawMessage   `json:"fallback_sample,omitempty"`
 	Seeds      []uint64          `json:"seeds"`
 	Known      map[string]uint64 `json:"known"`
 	SlowMs     int64             `json:"slow_ms"`
@@ -266,6 +267,9 @@ func (st *WorkerStats) accumulate(out *Outcome, c *Case, digests map[uint64]bool
 	}
 	if len(st.Samples) < 2 && out.Stats.NonTrivial {
 		st.Samples = append(st.Samples, sampleOf(c, out))
+	}
+	if st.Fallback == nil {
+		st.Fallback = sampleOf(c, out) // used only when no non-trivial run exists to show
 	}
 }
 
@@ -507,6 +511,14 @@ func runOrchestrate(t *testing.T) {
 		agg.Seeds = append(agg.Seeds, r.st.Seeds...)
 	}
 	agg.DistinctNT = len(digests)
+	if len(agg.Samples) == 0 {
+		for _, r := range results {
+			if r.st != nil && r.st.Fallback != nil {
+				agg.Samples = append(agg.Samples, r.st.Fallback)
+				break
+			}
+		}
+	}
 	wall := time.Since(start).Seconds()
 	for _, r := range results {
 		if r.st != nil && r.st.SlowMs > agg.SlowMs {
